@@ -174,7 +174,8 @@ CHECKS = {
              "file-system operation, crash before every operation; in-place with/without backup, stdout, -o; 1-2 files; every subset "
              "of undecodable inputs) and checks TargetIntact, NoTouchWithoutInplace, FailureAtomic, PerFileAllOrNothing, Untouched in "
              "every state. Every terminal scenario is replayed on the real CLI with strace syscall injection (errno or SIGKILL at the "
-             "k-th invocation located by a dry run), plus a kill at every file-system event of every fault-free run; the syscall log "
+             "k-th invocation located by a dry run), plus a kill at every file-system event of every fault-free run (target = regular file, symbolic "
+             "link to the file, or file with a second hard link; stale .orig of an earlier run; -o naming the input itself); the syscall log "
              "of each run is validated by spec/FsTrace.tla with the invariants evaluated after every event, and the real final disk "
              "state is classified and judged.",
         note="Trusted: strace injection semantics, role recognition by file name, TLC. Torn writes inside one write(2) are modelled "
